@@ -209,7 +209,7 @@ Qed.
 (* ------------------------------------------------------------------------------------------- *)
 (* putInternal, generically: [P v st] is any relation preserved by the put batch and by the size
    snapshot, and implying the crash invariant *)
-Lemma wp_put (c : cfg) (I : store -> Prop) (P : vol -> store -> Prop) v st x (Q : vol * bool -> store -> Prop) :
+Lemma wp_put (c : cfg) (bl : bool) (I : store -> Prop) (P : vol -> store -> Prop) v st x (Q : vol * bool -> store -> Prop) :
   (forall v' st', P v' st' -> I st') ->
   (forall v' st' n, P v' st' -> P v' (set_ikey KSi n st')) ->
   (forall q, P (set_wi_q v (wi v + 1) q) (put_store st (wi v) x)) ->
@@ -218,7 +218,7 @@ Lemma wp_put (c : cfg) (I : store -> Prop) (P : vol -> store -> Prop) v st x (Q 
                  s_items st' = iset (wi v) x (s_items st) ->
                  (forall r, durable (put_store st (wi v) x) r -> durable st' r) ->
                  Q (set_wi_q v (wi v + 1) q, true) st') ->
-  wp I (putInternal c v x) st Q.
+  wp bl I (putInternal c v x) st Q.
 Proof.
   intros HI HSi HPut HQf HQt. unfold putInternal.
   destruct (Z.ltb (capacity c) (qsize v + sizeof c x)) eqn:Et; [exact (HQf eq_refl)|].
@@ -243,8 +243,8 @@ Hypothesis FH : fin_hand E.
 
 Lemma spec_backup {A} v outs st (k : act A) (Q : A -> store -> Prop) :
   St E v outs st ->
-  (forall st', St E v outs st' -> wp (Icr E) k st' Q) ->
-  forall v0, wp (Icr E) (backup c v0 k) st Q.
+  (forall st', St E v outs st' -> wp true (Icr E) k st' Q) ->
+  forall v0, wp true (Icr E) (backup c v0 k) st Q.
 Proof.
   intros HS Hk v0. unfold backup. destruct (reqSized c); [now apply Hk|].
   cbn [wp]. change (fst (apply_ops [SetIdx KSi (Z.to_N (qsize v0))] st)) with (set_ikey KSi (Z.to_N (qsize v0)) st).
@@ -254,10 +254,10 @@ Qed.
 
 Lemma spec_put v outs st x :
   St E v outs st ->
-  wp (Icr E) (putInternal c v x) st
+  wp true (Icr E) (putInternal c v x) st
      (fun y st' => St E (fst y) outs st' /\ (snd y = true -> durable st' x)).
 Proof.
-  intros HS. apply (wp_put c (Icr E) (fun v' st' => St E v' outs st')); auto.
+  intros HS. apply (wp_put c true (Icr E) (fun v' st' => St E v' outs st')); auto.
   - intros v' st' H. eapply St_Icr; eauto.
   - intros v' st' n H. now apply St_si.
   - intros q. now apply St_put.
@@ -269,7 +269,7 @@ Qed.
 Lemma spec_finish v outs st index :
   St E v outs st ->
   (forall r, iget index (s_items st) = Some r -> In r (finals E)) ->
-  wp (Icr E) (itemDispatchingFinish v index) st
+  wp true (Icr E) (itemDispatchingFinish v index) st
      (fun v' st' => St E v' outs st' /\ ri v' = ri v /\ wi v' = wi v).
 Proof.
   intros HS HF. unfold itemDispatchingFinish. cbn [wp].
@@ -288,7 +288,7 @@ Definition read_post (v : vol) (outs : list handle) (y : vol * option (N * N)) (
 
 Lemma spec_getNext v outs st :
   St E v outs st -> ri v < wi v ->
-  wp (Icr E) (getNextItem v) st (read_post v outs).
+  wp true (Icr E) (getNextItem v) st (read_post v outs).
 Proof.
   intros HS Hlt. unfold getNextItem. cbn [wp].
   change (fst (apply_ops [SetIdx KRi (ri (set_ri_cdi v (ri v + 1) (cdi v ++ [ri v])));
@@ -319,7 +319,7 @@ Definition loop_post (v : vol) (outs : list handle) (y : vol * rres) (st' : stor
   end.
 
 Lemma spec_read_loop fuel : forall v outs st,
-  St E v outs st -> wp (Icr E) (read_loop fuel v) st (loop_post v outs).
+  St E v outs st -> wp true (Icr E) (read_loop fuel v) st (loop_post v outs).
 Proof.
   induction fuel as [|f IH]; intros v outs st HS; cbn [read_loop].
   - destruct (N.eqb (ri v) (wi v)); cbn [wp]; unfold loop_post; cbn [fst snd]; (split; [lia|split; [reflexivity|exact HS]]).
@@ -343,16 +343,16 @@ Qed.
 Lemma spec_onDone v outs st index sz oc :
   St E v outs st ->
   (oc <> OShutdown -> forall r, iget index (s_items st) = Some r -> In r (finals E)) ->
-  wp (Icr E) (onDone c v index sz oc) st (fun v' st' => St E v' outs st').
+  wp true (Icr E) (onDone c v index sz oc) st (fun v' st' => St E v' outs st').
 Proof.
   intros HS HF. unfold onDone.
   set (v1 := set_q v (Z.max 0 (qsize v - sz))).
   assert (HS1 : St E v1 outs st) by (eapply St_ext; [| | |exact HS]; reflexivity).
   assert (Fin : forall v2 st2, St E v2 outs st2 ->
-     wp (Icr E) (if N.eqb (ri v2 mod 10) 0 then backup c v2 (Done (unref v2)) else Done (unref v2)) st2
+     wp true (Icr E) (if N.eqb (ri v2 mod 10) 0 then backup c v2 (Done (unref v2)) else Done (unref v2)) st2
         (fun v' st' => St E v' outs st')).
   { intros v2 st2 H2.
-    assert (D : forall st', St E v2 outs st' -> wp (Icr E) (Done (unref v2)) st' (fun v' st' => St E v' outs st')).
+    assert (D : forall st', St E v2 outs st' -> wp true (Icr E) (Done (unref v2)) st' (fun v' st' => St E v' outs st')).
     { intros st' H'. cbn [wp]. eapply St_ext; [| | |exact H']; reflexivity. }
     destruct (N.eqb (ri v2 mod 10) 0); [|now apply D].
     eapply spec_backup; eauto. }
@@ -457,7 +457,7 @@ Qed.
 
 Lemma spec_reenqueue todo : forall v st dels errc,
   RSt todo dels v st ->
-  wp (Icr E) (reenqueue c v todo dels errc) st (fun y st' => St E (fst y) [] st').
+  wp true (Icr E) (reenqueue c v todo dels errc) st (fun y st' => St E (fst y) [] st').
 Proof.
   induction todo as [|[i val] t IH]; intros v st dels errc HR; cbn [reenqueue].
   - (* cleanup() *)
@@ -485,11 +485,12 @@ Proof.
   - assert (Hval : val = option_map VBody (iget i (s_items st))).
     { destruct HR as [R _]. destruct R. now destruct (r_todo0 i val (or_introl eq_refl)). }
     assert (Skip : iget i (s_items st) = None ->
-                   wp (Icr E) (reenqueue c v t (dels ++ [i]) errc) st (fun y st' => St E (fst y) [] st')).
+                   wp true (Icr E) (reenqueue c v t (dels ++ [i]) errc) st (fun y st' => St E (fst y) [] st')).
     { intros Hn. apply IH. eapply RSt_moved; [exact HR|]. intros r' Hr'. congruence. }
     destruct (iget i (s_items st)) as [r|] eqn:Eb; cbn [option_map] in Hval; subst val; [|now apply Skip].
+    destruct (would_wait c v r); [reflexivity|].
     apply wp_bind.
-    apply (wp_put c (Icr E) (RSt ((i, Some (VBody r)) :: t) dels)); auto.
+    apply (wp_put c true (Icr E) (RSt ((i, Some (VBody r)) :: t) dels)); auto.
     + apply RSt_Icr.
     + intros v' st' n H. now apply RSt_si.
     + intros q. now apply RSt_put.
@@ -511,7 +512,7 @@ Proof. now destruct b. Qed.
 
 Lemma spec_initStorage st :
   Icr E st ->
-  wp (Icr E) (initStorage c) st (fun v st' => st' = st /\ eff st = (ri v, wi v) /\ cdi v = []).
+  wp true (Icr E) (initStorage c) st (fun v st' => st' = st /\ eff st = (ri v, wi v) /\ cdi v = []).
 Proof.
   intros HI. unfold initStorage. cbn [wp].
   change (fst (apply_ops [GetIdx KRi; GetIdx KWi] st)) with st.
@@ -539,7 +540,7 @@ Proof. induction l as [|x l IH]; simpl; congruence. Qed.
 
 Lemma spec_retrieve v st :
   Icr E st -> eff st = (ri v, wi v) -> cdi v = [] ->
-  wp (Icr E) (retrieveAndEnqueue c v) st (fun y st' => St E (fst y) [] st').
+  wp true (Icr E) (retrieveAndEnqueue c v) st (fun y st' => St E (fst y) [] st').
 Proof.
   intros HI He Hc. destruct HI as ((Hle & Hwn & Hdi) & G & _). rewrite He in *. ssimpl.
   unfold retrieveAndEnqueue. cbn [wp].
@@ -572,7 +573,7 @@ Qed.
 
 Lemma spec_initClient st :
   Icr E st ->
-  wp (Icr E) (initClient c) st (fun y st' => St E (fst y) [] st').
+  wp true (Icr E) (initClient c) st (fun y st' => St E (fst y) [] st').
 Proof.
   intros HI. unfold initClient. apply wp_bind.
   eapply wp_mono; [intros s Hs; exact Hs| |apply (spec_initStorage st HI)].
@@ -618,12 +619,14 @@ Qed.
 Lemma op_spec c E v outs st o :
   Full E v outs st ->
   Icr (E ++ pre_events (v, outs) o) st /\
-  wp (Icr (E ++ pre_events (v, outs) o)) (run_op c (v, outs) o) st
+  wp true (Icr (E ++ pre_events (v, outs) o)) (run_op c (v, outs) o) st
      (fun x st' => Full ((E ++ pre_events (v, outs) o) ++ post_events o (snd x)) (fst (fst x)) (snd (fst x)) st').
 Proof.
   intros [HS [HO FH]]. destruct o as [x| |k oc|]; cbn [pre_events snd].
   - (* Offer *)
     rewrite app_nil_r. split; [eapply St_Icr; eauto|]. cbn [run_op].
+    destruct (would_wait c v x).
+    { cbn [wp fst snd]. unfold post_events. rewrite app_nil_r. split; [exact HS|split; auto]. }
     apply wp_bind. eapply wp_mono; [intros s Hs; exact Hs| |apply (spec_put c E FH v outs st x HS)].
     intros [v' ok] st' (H1 & H2). cbn [wp fst snd] in *. unfold post_events.
     destruct ok.
@@ -696,7 +699,7 @@ Proof.
   induction ops as [|o ops IH]; intros b st v outs pre evs obs HF; cbn [run_script].
   - cbn [i_events i_store]. eapply Full_Icr; eauto.
   - destruct (op_spec c (pre ++ evs) v outs st o HF) as [HI HW].
-    pose proof (wp_run _ _ st _ b HI HW) as HR.
+    pose proof (wp_run _ _ _ st _ b HI HW) as HR.
     destruct (run_act b st (run_op c (v, outs) o)) as [[st1 b1] [[[v1 outs1] r]|]].
     + cbn [fst snd] in HR. apply IH. rewrite !app_assoc. exact HR.
     + cbn [i_events i_store]. rewrite app_assoc. exact HR.
@@ -709,7 +712,7 @@ Lemma incarnation_inv c st sc b pre :
 Proof.
   intros HI. unfold incarnation.
   assert (FH : fin_hand pre) by apply HI.
-  pose proof (wp_run _ _ st _ b HI (spec_initClient c pre FH st HI)) as HR.
+  pose proof (wp_run _ _ _ st _ b HI (spec_initClient c pre FH st HI)) as HR.
   destruct (run_act b st (initClient c)) as [[st1 b1] [[v errc]|]].
   - cbn [fst] in HR. apply script_inv. rewrite app_nil_r. split; [exact HR|]. split; [intros i sz r []|exact FH].
   - cbn [i_events i_store]. now rewrite app_nil_r.
